@@ -55,3 +55,155 @@ Proof.
   replace (Z.to_nat (Z.max 1 (c_max c - 0))) with (budget fixed (c_max c)) by (unfold budget; simpl; f_equal; lia).
   rewrite <- (app_nil_r (results c _ s)). apply (tie_loop c _ s None 0 []).
 Qed.
+
+(* ------------------------------------------------------------------------------------------------ *)
+(* second wave of goldens: the attempt closures and the two loops of DescribeConsumerGroups *)
+From SV Require Import Gen.DecTypes2 C19.ProofsRetry C19.ProofsRoute.
+
+(* the closure of CreateTopic / DeleteTopic / CreatePartitions as regenerated *)
+Definition gen_attempt (o : op) : gerr -> gerr -> Z -> bool -> list ad_action * gerr :=
+  match o with
+  | OpCreateTopic => create_topic_attempt
+  | OpDeleteTopic => delete_topic_attempt
+  | OpCreatePartitions => create_partitions_attempt
+  | OpAlter => fun _ _ _ _ => ([], ENil)        (* not regenerated: its closure builds a MultiError *)
+  end.
+
+(* how the model's script presents itself to the closure *)
+Definition controller_gerr (c : cfg) (s : st) : gerr :=       (* ca.Controller() *)
+  if valid (c_n c) (ctrl (resolve c s)) then ENil else EVar "ErrControllerNotAvailable".
+Definition request_gerr (c : cfg) (a : answer) : gerr :=      (* b.CreateTopics(request) etc. *)
+  if c_kver c <? min_kver (c_op c) then EK unsupported_version
+  else match a with ADrop => EOther 0 | _ => ENil end.
+Definition answer_code (a : answer) : Z := match a with ACode x | AParts x _ => x | _ => 0 end.
+Definition answer_present (a : answer) : bool := match a with AIncomplete => false | _ => true end.
+
+(* did this attempt send its request and then call refreshController? *)
+Definition attempt_refreshes (c : cfg) (s : st) : bool :=
+  let s1 := resolve c s in
+  valid (c_n c) (ctrl s1) && negb (c_kver c <? min_kver (c_op c)) &&
+  refreshes (c_flav c) (c_op c) (answer_of (hd [] (answers s1)) (ctrl s1)).
+
+Theorem tie_attempt : forall c s, c_op c <> OpAlter ->
+  let s1 := resolve c s in
+  let a := answer_of (hd [] (answers s1)) (ctrl s1) in
+  gen_attempt (c_op c) (controller_gerr c s) (request_gerr c a) (answer_code a) (answer_present a) =
+  ((if attempt_refreshes c s then [AD_refresh_controller] else []), og (snd (fst (attempt c s)))).
+Proof.
+  intros c s Ho s1 a. rewrite attempt_eq. cbv zeta. fold s1. fold a.
+  unfold controller_gerr, request_gerr, attempt_refreshes. fold s1. fold a.
+  destruct (valid (c_n c) (ctrl s1)); simpl.
+  2:{ destruct (c_op c); try congruence; reflexivity. }
+  destruct (c_kver c <? min_kver (c_op c)); simpl.
+  { destruct (c_op c); try congruence; reflexivity. }
+  destruct (c_op c); try congruence; destruct a as [x|x ps| |];
+    unfold gen_attempt, create_topic_attempt, delete_topic_attempt, create_partitions_attempt,
+      interpret, refreshes, answer_code, answer_present, not_controller, wrap_of; simpl; try reflexivity;
+    (destruct (x =? 0) eqn:E0; simpl; [apply Z.eqb_eq in E0; subst x; reflexivity|]);
+    destruct (x =? 41); reflexivity.
+Qed.
+
+(* ---- DescribeConsumerGroups, first loop: client.Coordinator per group, first error aborts ---- *)
+Fixpoint first_err (e : grp_env) (gs : list Z) : option Z :=
+  match gs with
+  | [] => None
+  | g :: r => match coord_lookup e g with inr c => Some c | inl _ => first_err e r end
+  end.
+
+Lemma find_all_first_err : forall e gs seen,
+  (forall g, In g seen -> exists b, coord_lookup e g = inl b) ->
+  fst (find_all e gs seen) = first_err e gs.
+Proof.
+  intros e gs. induction gs as [|g gs IH]; intros seen S; simpl; [reflexivity|].
+  destruct (mem g seen) eqn:M.
+  - apply mem_in in M. destruct (S g M) as [b ->]. now apply IH.
+  - destruct (coord_lookup e g) as [b|c] eqn:L; [|reflexivity].
+    destruct (find_all e gs (g :: seen)) as [x ev] eqn:F. simpl.
+    rewrite <- (IH (g :: seen)); [now rewrite F|]. intros g' [<-|H]; eauto.
+Qed.
+
+(* the results of client.Coordinator(group) for the groups in order *)
+Definition coordinator_script (e : grp_env) (gs : list Z) : list (unit * gerr) :=
+  map (fun g => (tt, match coord_lookup e g with inl _ => ENil | inr c => EK c end)) gs.
+
+Lemma lookup_loop : forall e (name : Z -> string) gs rest names acts,
+  let r := describe_groups_lookup_loop1 (map name gs) (coordinator_script e gs ++ rest) names acts in
+  snd r = match first_err e gs with Some c => ExReturn ([], EK c) | None => ExFall end /\
+  (first_err e gs = None -> fst r = (rest, acts ++ map (fun g => AD_group_to_coordinator (name g)) gs)).
+Proof.
+  intros e name gs. induction gs as [|g gs IH]; intros rest names acts; simpl.
+  - split; [reflexivity|]. intros _. now rewrite app_nil_r.
+  - destruct (coord_lookup e g) as [b|c]; simpl.
+    + destruct (IH rest names (acts ++ [AD_group_to_coordinator (name g)])) as [H1 H2].
+      split; [exact H1|]. intro F. rewrite (H2 F). now rewrite <- app_assoc.
+    + split; [reflexivity|discriminate].
+Qed.
+
+Theorem tie_describe_lookup : forall e (name : Z -> string) gs,
+  let r := describe_groups_lookup (coordinator_script e gs) (map name gs) in
+  match fst (find_all e gs []) with
+  | Some c => snd r = ExReturn ([], EK c) /\ fst (group_op GDescribe e gs []) = RErr (EKafka WKError c)
+  | None => snd r = ExFall /\ snd (fst r) = map (fun g => AD_group_to_coordinator (name g)) gs
+  end.
+Proof.
+  intros e name gs r. unfold r, describe_groups_lookup.
+  destruct (lookup_loop e name gs [] (map name gs) []) as [H1 H2]. rewrite app_nil_r in H1, H2.
+  rewrite (find_all_first_err e gs [] (fun _ (x : In _ []) => match x with end)).
+  destruct (first_err e gs) as [c|] eqn:F.
+  - split; [exact H1|]. simpl.
+    destruct (find_all e gs []) as [x ev] eqn:FA.
+    pose proof (find_all_first_err e gs [] (fun _ (x : In _ []) => match x with end)) as E.
+    rewrite FA, F in E. simpl in E. now subst x.
+  - split; [exact H1|]. now rewrite (H2 eq_refl).
+Qed.
+
+(* ---- second loop: one DescribeGroups call per coordinator, first failure aborts, answers concatenated ---- *)
+Definition broker_response (e : grp_env) (enc : Z * Z -> Z) (bg : Z * list Z) : list Z * gerr :=
+  match assoc_def BNormal (fst bg) (g_modes e) with
+  | BDrop => ([], EOther 0)
+  | BMissing => ([], ENil)
+  | BNormal => (map (fun g => enc (g, assoc_def 0 g (g_codes e))) (snd bg), ENil)
+  end.
+
+Lemma collect_loop : forall e enc plan res0 rest pbs,
+  let r := describe_groups_collect_loop1 (map (fun bg => (fst bg, 0)) plan) res0
+             (map (broker_response e enc) plan ++ rest) pbs in
+  match fst (describe_plan e plan) with
+  | RItems l => r = (res0 ++ map enc l, rest, ExFall)
+  | _ => snd r = ExReturn ([], EOther 0)
+  end.
+Proof.
+  intros e enc plan. induction plan as [|[b gs] plan IH]; intros res0 rest pbs; simpl.
+  - now rewrite app_nil_r.
+  - destruct (assoc_def BNormal b (g_modes e)) eqn:M.
+    + assert (BR : broker_response e enc (b, gs) = (map (fun g => enc (g, assoc_def 0 g (g_codes e))) gs, ENil))
+        by (unfold broker_response; simpl; now rewrite M).
+      rewrite BR. simpl.
+      specialize (IH (res0 ++ map (fun g => enc (g, assoc_def 0 g (g_codes e))) gs) rest pbs).
+      destruct (describe_plan e plan) as [res' ev']. simpl in *.
+      destruct res' as [|x|l]; simpl; try exact IH.
+      rewrite IH. now rewrite map_app, map_map, app_assoc.
+    + assert (BR : broker_response e enc (b, gs) = ([], EOther 0))
+        by (unfold broker_response; simpl; now rewrite M).
+      rewrite BR. reflexivity.
+    + assert (BR : broker_response e enc (b, gs) = ([], ENil))
+        by (unfold broker_response; simpl; now rewrite M).
+      rewrite BR. simpl.
+      specialize (IH (res0 ++ []) rest pbs).
+      destruct (describe_plan e plan) as [res' ev']. simpl in *.
+      destruct res' as [|x|l]; simpl; try exact IH.
+      rewrite IH. now rewrite app_nil_r.
+Qed.
+
+Theorem tie_describe_collect : forall e enc gs,
+  let plan := group_by (coord_key e) gs in
+  let r := describe_groups_collect [] (map (broker_response e enc) plan) (map (fun bg => (fst bg, 0)) plan) in
+  match fst (describe_plan e plan) with
+  | RItems l => r = (map enc l, [], ExFall)
+  | _ => snd r = ExReturn ([], to_gerr ETransport)
+  end.
+Proof.
+  intros e enc gs plan r. unfold r, describe_groups_collect.
+  pose proof (collect_loop e enc plan [] [] (map (fun bg => (fst bg, 0)) plan)) as H.
+  rewrite app_nil_r in H. exact H.
+Qed.
